@@ -6,7 +6,7 @@ import itertools
 from .. import core, tree
 
 MOD = "mc.props.c08"
-NAMES_Q = ("a", "A", "a.b", "b")
+NAMES_Q = ("a", "A", "a.b", "b", "[a]")
 NAMES_T = ("a", "A", "a.b", "b", "a+", "[a]", "(a", "a\nb", "ab")
 COMPS = ("x", "*", "a*", "?", "**", "..", ".", "", "A?", "*b")
 
@@ -353,7 +353,7 @@ def replay(c):
 
 def plan(tier):
     items = []
-    spec = [(1, 3, NAMES_Q, 3), (4, 4, NAMES_Q[:3], 2)] if tier == "quick" else \
+    spec = [(1, 3, NAMES_Q, 3), (4, 4, ("a", "A", "[a]"), 2)] if tier == "quick" else \
            [(1, 3, NAMES_Q, 3), (4, 4, NAMES_Q, 3), (1, 3, NAMES_T, 2), (5, 5, ("a", "A"), 2)]
     for lo, hi, alphabet, maxcomp in spec:
         for n in range(lo, hi + 1):
